@@ -70,7 +70,8 @@ def scenario(repo, name):
         b._deserialize(pickle.loads(pickle.dumps(a._serialize(), -1)))
     else:
         b = build(B, other)
-    srt = lambda c: sorted(c, key=lambda x: (type(x).__name__, repr(x)))
+    from harness.corr.batteries_mixed import value_key
+    srt = lambda c: sorted(c, key=value_key)
     before_a, before_b = srt(a.rawData()), srt(b.rawData())
     try:
         pa, pb = a.pop(_doApply=True), b.pop(_doApply=True)
